@@ -7,7 +7,7 @@ C11 — executable model of the REST API request path of `api/rest/restapi.go`:
   cors.Handler     an OPTIONS request with Access-Control-Request-Method is answered 204 by the CORS
                    layer and never reaches the router
   gorilla/mux      clean-path redirect, first route (in table order) whose method and path match,
-                   405 with an empty body when only the path matches, the API's 404 otherwise,
+                   the API's JSON 405 when only the path matches, its JSON 404 otherwise,
                    strict-slash redirect of a matched route
   handlers         one arm per handler function named in `routes()`, transcribing control flow:
                    parseCidOrError / parsePinPathOrError / parsePidOrError, PinOptions.FromQuery,
@@ -336,7 +336,7 @@ def parsePinPath (r : Req) (pat : List PSeg) : Option (String × Opts) :=
 inductive Handler where
   | id | version | peerList | peerAdd | peerRemove | add | allocations | allocation | statusAll
   | recover | recoverAll | status | pin | pinPath | unpin | unpinPath | repoGC | graph | alerts
-  | metrics | metricNames | notFound
+  | metrics | metricNames | notFound | methodNotAllowed
   deriving DecidableEq, Repr
 
 def Handler.ofName (s : String) : Option Handler :=
@@ -351,6 +351,7 @@ def Handler.ofName (s : String) : Option Handler :=
   else if s == "repoGCHandler" then some .repoGC else if s == "graphHandler" then some .graph
   else if s == "alertsHandler" then some .alerts else if s == "metricsHandler" then some .metrics
   else if s == "metricNamesHandler" then some .metricNames else if s == "notFoundHandler" then some .notFound
+  else if s == "methodNotAllowedHandler" then some .methodNotAllowed
   else none
 
 /-- `sendResponse` with an error and no call made -/
@@ -433,6 +434,7 @@ def runHandler (h : Handler) (r : Req) (pat : List PSeg) : Resp :=
      | some (p, o) => respond r ⟨"Cluster.UnpinPath", .path p o⟩ 200 1 500 404
      | none => refuse 400)
   | .notFound => refuse 404
+  | .methodNotAllowed => refuse 405      -- 43bb783: a JSON error document, like the 404
 
 /-! ### the router (gorilla/mux with StrictSlash(true)) -/
 
@@ -473,7 +475,7 @@ def router (table : List Route) (r : Req) : Resp :=
       else (match Handler.ofName rt.handler with
             | some h => runHandler h r rt.pat
             | none => unmodelled)
-    | .methodNotAllowed => { status := 405, body := .docs 0, ops := [] }   -- mux's default: no body
+    | .methodNotAllowed => runHandler .methodNotAllowed r []
     | .notFound => runHandler .notFound r []
 
 /-! ### the handler chain of `NewAPIWithHost` -/
@@ -619,11 +621,33 @@ def clientRet (c : Call) (o : Resp) : Ret :=
   else if answerHasOrigins c then .err o.status
   else .same
 
+/-- `path.Clean` on the segments: empty and "." segments vanish, ".." takes the previous one with it -/
+def cleanSegs (segs : List Seg) : List Seg :=
+  (segs.foldl (fun (acc : List Seg) s =>
+    if s.txt == "" || s.txt == "." then acc
+    else if s.txt == ".." then acc.dropLast
+    else acc ++ [s]) [])
+
+/-- the request net/http's client issues when it follows a 301: a GET (the method of a redirected POST or
+    DELETE is not kept), no body; to the cleaned path (mux's clean-path redirect keeps a trailing slash), or
+    to the path without its trailing slash (strict-slash redirect) -/
+def redirected (r : Req) : Req :=
+  if unclean r then { r with method := "GET", segs := cleanSegs r.segs, body := .none }
+  else { r with method := "GET", slash := false, body := .none }
+
+def followRedirects (chain : List String) (table : List Route) (r : Req) (o : Resp) : Nat → Resp
+  | 0 => o
+  | n + 1 =>
+    if o.status == 301 then
+      let r' := redirected r
+      followRedirects chain table r' (handle chain table r') n
+    else o
+
 def clientCall (chain : List String) (table : List Route) (cfg : CliCfg) (c : Call) : List Op × Ret :=
   match build cfg c with
   | none => ([], .clientErr)
   | some r =>
-    let o := handle chain table r
+    let o := followRedirects chain table r (handle chain table r) 3
     (o.ops, clientRet c o)
 
 end CV.C11
